@@ -70,7 +70,7 @@ Qed.
 (* --- attestation construction ------------------------------------------------------------- *)
 Lemma in_attestations d a unsigned args x :
   In x (attestations d a args unsigned) <->
-  exists g, In g args /\ ~ In (sa_v g) unsigned /\
+  exists g, In g args /\ ~ In (sa_v g) unsigned /\ sa_size g <= max_committee /\
             x = make_att d a g (sa_v g, mkvote (d_slot d) (sa_comm g) a).
 Proof.
   unfold attestations. induction args as [|g args IH]; cbn [map create_atts].
@@ -79,18 +79,27 @@ Proof.
     + apply memb_N_true in Hm. rewrite IH. split.
       * intros [g' [Hin H]]. exists g'. split; [right; exact Hin | exact H].
       * intros [g' [[<-|Hin] [Hn H]]]; [contradiction | exists g'; auto].
-    + apply memb_N_false in Hm. cbn [In]. rewrite IH. split.
-      * intros [<-|[g' [Hin H]]]; [exists g; repeat split; auto | exists g'; split; [right; exact Hin | exact H]].
-      * intros [g' [[<-|Hin] [Hn H]]]; [left; symmetry; exact H | right; exists g'; auto].
+    + apply memb_N_false in Hm. destruct (sa_size g <=? max_committee) eqn:Hsz.
+      * apply N.leb_le in Hsz. cbn [In]. rewrite IH. split.
+        -- intros [<-|[g' [Hin H]]]; [exists g; repeat split; auto | exists g'; split; [right; exact Hin | exact H]].
+        -- intros [g' [[<-|Hin] [Hn [Hs H]]]]; [left; symmetry; exact H | right; exists g'; auto].
+      * apply N.leb_gt in Hsz. rewrite IH. split.
+        -- intros [g' [Hin H]]. exists g'. split; [right; exact Hin | exact H].
+        -- intros [g' [[<-|Hin] [Hn [Hs H]]]]; [lia | exists g'; auto].
 Qed.
 
-(* exactly one attestation per account whose signature is not zero, in the order of the accounts *)
+(* exactly one attestation per account whose signature is not zero and whose committee is not
+   larger than the maximum committee size, in the order of the accounts *)
+Definition attests (unsigned : list vidx) (g : sarg) : bool :=
+  negb (memb N.eqb (sa_v g) unsigned) && (sa_size g <=? max_committee).
+
 Lemma attestations_signers d a unsigned args :
   map (fun x => fst (at_sig x)) (attestations d a args unsigned) =
-  filter (fun v => negb (memb N.eqb v unsigned)) (map sa_v args).
+  map sa_v (filter (attests unsigned) args).
 Proof.
-  unfold attestations. induction args as [|g args IH]; cbn [map create_atts filter]; [reflexivity|].
-  unfold sign_one at 1. destruct (memb N.eqb (sa_v g) unsigned); cbn [negb map]; [exact IH|].
+  unfold attestations, attests. induction args as [|g args IH]; cbn [map create_atts filter]; [reflexivity|].
+  unfold sign_one at 1. destruct (memb N.eqb (sa_v g) unsigned); cbn [negb andb map]; [exact IH|].
+  destruct (sa_size g <=? max_committee); cbn [map]; [|exact IH].
   cbn [make_att at_sig fst]. f_equal. exact IH.
 Qed.
 
@@ -116,7 +125,7 @@ Lemma assignment d claimed avail a unsigned x :
   let v := fst (at_sig x) in
   In v claimed /\ In v avail /\ ~ In v unsigned /\ assignment_ok d a x.
 Proof.
-  intros Hwf Hincl Hin. apply in_attestations in Hin as [g [Hg [Hns Hx]]].
+  intros Hwf Hincl Hin. apply in_attestations in Hin as [g [Hg [Hns [_ Hx]]]].
   apply in_sign_args in Hg as [v [Hav [Hcl Hg]]].
   destruct (arg_of_spec d v Hwf (Hincl v Hcl)) as [j [c [p [Hv [Hc [Hp [Hlt Harg]]]]]]].
   rewrite Harg in Hg. subst g. cbn [sa_v sa_comm sa_pos sa_size fst snd] in *.
@@ -130,16 +139,16 @@ Lemma unsigned_absent d claimed avail a unsigned x :
   In x (attestations d a (sign_args d claimed avail) unsigned) ->
   let v := fst (at_sig x) in In v claimed /\ In v avail /\ ~ In v unsigned.
 Proof.
-  intros Hin. apply in_attestations in Hin as [g [Hg [Hns Hx]]].
+  intros Hin. apply in_attestations in Hin as [g [Hg [Hns [_ Hx]]]].
   apply in_sign_args in Hg as [v [Hav [Hcl Hg]]].
   subst x g. cbn. auto.
 Qed.
 
 Lemma signed_present d claimed avail a unsigned v :
-  In v claimed -> In v avail -> ~ In v unsigned ->
+  In v claimed -> In v avail -> ~ In v unsigned -> sa_size (arg_of d v) <= max_committee ->
   exists x, In x (attestations d a (sign_args d claimed avail) unsigned) /\ fst (at_sig x) = v.
 Proof.
-  intros Hcl Hav Hns.
+  intros Hcl Hav Hns Hsz.
   exists (make_att d a (arg_of d v) (v, mkvote (d_slot d) (sa_comm (arg_of d v)) a)). split; [|reflexivity].
   apply in_attestations. exists (arg_of d v). repeat split; auto.
   apply in_sign_args. exists v. auto.
@@ -162,12 +171,27 @@ Qed.
    signing request: k-th signature <-> k-th account <-> k-th committee index *)
 Lemma signreq_matches_attestations i d claimed avail a unsigned :
   map (fun x => (fst (at_sig x), vt_comm (at_vote x))) (attestations d a (sign_args d claimed avail) unsigned) =
-  filter (fun p => negb (memb N.eqb (fst p) unsigned)) (sr_pairs (mk_signreq i d a (sign_args d claimed avail))).
+  filter (fun p => negb (memb N.eqb (fst p) unsigned) && (size_of d (snd p) <=? max_committee))
+         (sr_pairs (mk_signreq i d a (sign_args d claimed avail))).
 Proof.
-  cbn [mk_signreq sr_pairs]. generalize (sign_args d claimed avail) as args.
-  unfold attestations. induction args as [|g args IH]; cbn [map create_atts filter]; [reflexivity|].
-  unfold sign_one at 1. cbn [fst]. destruct (memb N.eqb (sa_v g) unsigned); cbn [negb map]; [exact IH|].
-  cbn [make_att at_sig at_vote fst mkvote vt_comm]. f_equal. exact IH.
+  cbn [mk_signreq sr_pairs]. unfold sign_args. generalize (accounts_for avail claimed) as l.
+  unfold attestations. induction l as [|v l IH]; cbn [map create_atts filter]; [reflexivity|].
+  unfold sign_one at 1. cbn [arg_of sa_v sa_comm sa_size fst snd].
+  destruct (memb N.eqb v unsigned); cbn [negb andb map]; [exact IH|].
+  destruct (size_of d (nth (idx_of (d_vals d) v) (d_comms d) 0) <=? max_committee); [|exact IH].
+  cbn [map make_att at_sig at_vote fst mkvote vt_comm arg_of sa_v sa_comm]. f_equal. exact IH.
+Qed.
+
+(* the same, by validator: who gets an attestation *)
+Lemma sign_args_signers d claimed avail a unsigned :
+  map (fun x => fst (at_sig x)) (attestations d a (sign_args d claimed avail) unsigned) =
+  filter (fun v => negb (memb N.eqb v unsigned) && (sa_size (arg_of d v) <=? max_committee))
+         (accounts_for avail claimed).
+Proof.
+  rewrite attestations_signers. unfold sign_args, attests. generalize (accounts_for avail claimed) as l.
+  induction l as [|v l IH]; cbn [map filter]; [reflexivity|].
+  replace (sa_v (arg_of d v)) with v by reflexivity.
+  destruct (negb (memb N.eqb v unsigned) && (sa_size (arg_of d v) <=? max_committee)); cbn [map]; [f_equal|]; exact IH.
 Qed.
 
 (* --- lifted to every history ----------------------------------------------------------------- *)
